@@ -43,7 +43,7 @@ def run(ctx):
     if ctx.thorough and ctx.shard == 0 and ctx.only_case is None:
         from ..suite_contracts import run_repo_suite_with_contracts
         run_repo_suite_with_contracts(obs, only='ravel_dimensions,wind_dimension')
-    total = ctx.n(600, 12000)
+    total = ctx.n(600, 60000)
     for case, rng in ctx.cases(total):
         conv = CONVENTIONS[case % len(CONVENTIONS)]
         spec = {'case': case, 'convention': conv}
